@@ -335,6 +335,19 @@ func (ex *Exec) scanCall(c *ssa.CallCommon, ms *modSet, isGo bool) {
 	// interface method or function value: counters only (frame assumption F1),
 	// plus effects of context-related externals
 	ms.cnt[name] = true
+	for _, pre := range []string{"HandleRPC", "HandleConn"} {
+		if strings.HasSuffix(name, "stats.Handler)."+pre) {
+			// per-event-type counters bumped by the assumed contract: the event's dynamic type is
+			// usually visible at the call site (a MakeInterface of a fresh *stats.X)
+			if len(c.Args) == 2 {
+				if mi, ok := c.Args[1].(*ssa.MakeInterface); ok {
+					ms.cnt[pre+":"+typeKey(mi.X.Type())] = true
+					continue
+				}
+			}
+			ms.cnt[pre+":*"] = true
+		}
+	}
 	if !c.IsInvoke() && isCancelFuncType(c.Value.Type()) {
 		ms.arr["ctxdone"] = true
 		return
